@@ -47,6 +47,7 @@ def run(ctx):
     rule_sym(ctx, F)
     rule_escread(ctx, F)
     rule_bititer(ctx, F)
+    rule_charstr255(ctx, F)
     # written text reads back only if the reader's tokeniser counts groups the way the multi-line writer nests them and
     # the Base32 / Base64 readers accept every tail the writers produce (shared with C07 and C18)
     import c07
@@ -964,3 +965,55 @@ def rule_bititer(ctx, F):
     ctx.ob(R, nb, "the first position is tested before the first advance", ok,
            "RtypeBitmapIter::new advances without having looked at bit 0 of the first octet (type 0 of the first window)",
            nb.where(adv[0]) if adv else nb.where())
+
+
+def rule_charstr255(ctx, F):
+    """A character string holds up to 255 octets.  convert_charstr marks the position `latest` = first content octet + 255
+    and refuses a string whose write cursor goes *past* it; both of its loops (the in-place fast one and the copying
+    one) make that test with `>` -- a `>=` in one of them refuses a 255-octet string that takes that loop (one with an
+    escape in it, or any string behind the first of a long TXT value), which the writer produces."""
+    R = "C06.charstr255"
+    ctx.floor(R, 2)
+    b = F.one_body(r"^zonefile::inplace::EntryScanner::<'_>::convert_charstr$")
+    if not ctx.anchor(R, "EntryScanner::convert_charstr", b):
+        return
+    # `latest`: the local assigned (deref of the write cursor) + 255
+    latest = set()
+    for bi in b.reachable_blocks():
+        for st in b.blocks[bi]["s"]:
+            if st[0] == "=" and len(st[1]) == 1 and st[2][0] == "use" and st[2][1][0] in ("c", "m") and len(st[2][1][1]) == 2:
+                src = st[2][1][1][0]
+                for d in b.defs().get(src, []):
+                    if d[0] == "stmt" and d[3][0] == "bin" and d[3][1].startswith("Add") and const_value(deep_strip(b.term_of_operand(d[3][3]))) == 255:
+                        latest.add(st[1][0])
+    hits = []
+    for bi in sorted(b.reachable_blocks()):
+        env = {}
+        for st in b.blocks[bi]["s"]:
+            if st[0] != "=" or len(st[1]) != 1:
+                continue
+            rv = st[2]
+            if rv[0] == "use" and rv[1][0] in ("c", "m"):
+                env[st[1][0]] = rv[1][1]
+            if rv[0] == "bin" and rv[1] in ("Gt", "Ge", "Lt", "Le", "Eq", "Ne"):
+                pls = []
+                for o in (rv[2], rv[3]):
+                    pl = o[1] if o[0] in ("c", "m") else None
+                    if pl is not None and len(pl) == 1 and pl[0] in env:
+                        pl = env[pl[0]]
+                    pls.append(pl)
+                def is_latest(pl):
+                    return pl is not None and len(pl) == 1 and pl[0] in latest
+                def is_write(pl):
+                    return pl is not None and len(pl) >= 2 and "*" in pl and pl[0] == 2
+                if is_write(pls[0]) and is_latest(pls[1]):
+                    hits.append((bi, rv[1]))
+                elif is_latest(pls[0]) and is_write(pls[1]):
+                    hits.append((bi, {"Gt": "Lt", "Lt": "Gt", "Ge": "Le", "Le": "Ge"}.get(rv[1], rv[1])))
+    if not ctx.anchor(R, "`latest` (= first content octet + 255) and the guards against it in convert_charstr", bool(latest) and len(hits) >= 2, b.where()):
+        return
+    for n, (bi, op) in enumerate(hits):
+        ctx.ob(R, b, "loop#%d admits 255 octets of content" % (n + 1), op == "Gt",
+               "convert_charstr refuses the string when the write cursor is `%s` the 255-octet mark (its sibling loop: past it): a "
+               "character string of exactly 255 octets that goes through this loop -- the writer produces them -- is rejected as "
+               "too long" % {"Ge": "at or past", "Lt": "before", "Le": "at or before", "Eq": "at"}.get(op, op), b.where(bi))
